@@ -1,30 +1,52 @@
-(* C04: statements that the faithful model of the UNCHANGED code violates (witnesses by evaluation).
-   Not part of the property obligations. *)
-From SG Require Import Base.Prelude C04.RevId C04.RevTree C04.DocModel C04.WinnerProofs C04.DocProofs.
+(* C04: the two defects the faithful model of the ORIGINAL code exposed; both are repaired in /repo
+   (commits 140db63, ac6ea40) and the model follows the repaired code (RevId.code_fixed = true).
+   The old behaviour stays reachable through the [false] instances; the witnesses below are evaluated
+   on it.  Not part of the property obligations. *)
+From SG Require Import Base.Prelude C04.RevId C04.RevTree C04.DocModel C04.WinnerProofs C04.DocProofs C04.C04_Properties.
 Open Scope N_scope.
 
-(* documentUpdateFunc computes the flags (updateWinningRevAndSetDocFlags) BEFORE pruneRevisions; when
-   pruning removes an old tombstoned branch the stored Branched flag stays set although a single leaf
-   is left.  revs_limit = 3: push the tombstone 1-a, then 5-a with ancestry 2-ff, 1-ff. *)
+(* old documentUpdateFunc: flags computed BEFORE pruneRevisions and never revisited; when pruning removes
+   an old tombstoned branch the stored Branched flag stays set although a single leaf is left.
+   revs_limit = 3: push the tombstone 1-a, then 5-a with ancestry 2-ff, 1-ff. *)
 Definition stale_ops : list op :=
   [ OPush [I 1 [97]] true false;
     OPush [I 5 [97]; I 2 [102;102]; I 1 [102;102]] false false ].
 
-Theorem C04_stored_branched_flag_refuted :
-  exists allowC limit ops, Forall valid_op ops /\ 1 <= limit /\
-    let d := run allowC limit empty_doc ops in
-    dbranch d = true /\ length (leaves (dtree d)) = 1%nat.
+Lemma stale_ops_valid : Forall valid_op stale_ops.
+Proof. repeat constructor; intros i I; cbn in I; intuition (subst; cbn; lia). Qed.
+
+Theorem C04_stored_branched_flag_refuted_old_code :
+  let d := run false true 3 empty_doc stale_ops in
+  dbranch d = true /\ length (leaves (dtree d)) = 1%nat.
+Proof. vm_compute. split; reflexivity. Qed.
+
+(* the same requests on the repaired code *)
+Example C04_stored_branched_flag_repaired :
+  let d := run true true 3 empty_doc stale_ops in
+  dbranch d = false /\ length (leaves (dtree d)) = 1%nat.
+Proof. vm_compute. split; reflexivity. Qed.
+
+Theorem C04_reachable_old_code_statement_refuted : ~ C04_reachable_documents_old_code_statement.
 Proof.
-  exists true, 3, stale_ops. split.
-  - repeat constructor; intros i I; cbn in I; intuition (subst; cbn; lia).
-  - split; [lia|]. vm_compute. split; reflexivity.
+  intros H. specialize (H true 3 stale_ops stale_ops_valid ltac:(lia)).
+  destruct H as (_ & F & _). cbn zeta in F.
+  assert (NE : dtree (run false true 3 empty_doc stale_ops) <> []) by (vm_compute; congruence).
+  destruct (F NE) as (w & _ & _ & _ & _ & _ & B).
+  assert (Bt : dbranch (run false true 3 empty_doc stale_ops) = true) by (vm_compute; reflexivity).
+  apply B in Bt. vm_compute in Bt. lia.
 Qed.
 
-(* textual ids: two different strings can denote the same (generation, digest) - "01-abc" and "1-abc"
-   compare equal, so for such ids the winner loop would depend on iteration order; the tree model
-   works on parsed ids and the theorems assume ids in canonical form *)
-Theorem C04_noncanonical_ids_compare_equal :
-  exists a b, a <> b /\ parse_revid a <> None /\ parse_revid b <> None /\ cmp_raw a b = 0%Z.
+(* old parseRevID: two different strings denote the same (generation, digest) - "01-a" and "1-a" are both
+   accepted and compare equal, so the winner loop depended on map iteration order *)
+Theorem C04_noncanonical_ids_compare_equal_old_code :
+  exists a b, a <> b /\ parse_revid_gen false a <> None /\ parse_revid_gen false b <> None /\
+    cmp_raw_gen false a b = 0%Z.
 Proof.
   exists [48;49;45;97], [49;45;97]. repeat split; try (vm_compute; congruence).
 Qed.
+
+(* the repaired parser rejects the non-canonical spelling *)
+Example C04_noncanonical_ids_rejected :
+  parse_revid_gen true [48;49;45;97] = None /\ parse_revid_gen true [43;49;45;97] = None /\
+  parse_revid_gen true [49;45;97] = Some (1, [97]).
+Proof. vm_compute. repeat split. Qed.
